@@ -56,6 +56,20 @@ def hermite(repo, run):
                 v = v.args[0]
             if isinstance(v, ast.Name):
                 stored[st.targets[0].attr] = v.id
+    # a piece owns its data: the six inputs are COPIED (the caller's stepping loop may reuse and overwrite its time / state / slope buffers; a piece that only keeps
+    # references then stops reproducing the end values and slopes it was built from -- with t0 and t1 aliasing one buffer its interval length becomes zero)
+    r9_ = run.rule("C17.9", "CubicHermiteInterp.__init__ stores a copy (copy / clone / array(.., copy=True)) of each of its six inputs, never the input object itself or an "
+                            "asarray view of it", floor=6)
+    for st in walk_no_nested(init):
+        if isinstance(st, ast.Assign) and len(st.targets) == 1 and is_self_attr(st.targets[0]) and st.targets[0].attr in SLOTS:
+            v = st.value
+            copies = isinstance(v, ast.Call) and ((fname(v) or "").split(".")[-1] in ("copy", "clone", "deepcopy") or (
+                (fname(v) or "").split(".")[-1] in ("array",) and not any(k.arg == "copy" and isinstance(k.value, ast.Constant) and k.value.value is False for k in v.keywords)))
+            run.judged(r9_, "self.%s = %s" % (st.targets[0].attr, src(v)[:50]), ok=copies)
+            if not copies:
+                run.report("C17.9", INTERP, st, "the piece keeps `%s` for its slot %s -- the caller's own object (asarray returns its argument unchanged when it already is an array): "
+                           "when the caller updates that buffer in place afterwards, the piece no longer reproduces the end values / end slopes / cubic it was built from" % (
+                               src(v)[:40], st.targets[0].attr))
     for pos, slot in enumerate(SLOTS):
         ok = stored.get(slot) == params[pos]
         run.judged(r0, "self.%s <- parameter #%d (%s)" % (slot, pos, params[pos]), ok=ok)
